@@ -27,6 +27,16 @@ pub mod codec;
 pub fn run(prop: &str, leg: &str, ctx: &Ctx, rep: &mut Report) -> bool {
     match (prop, leg) {
         ("selftest", _) => crate::selftest::run(ctx, rep),
+        ("fixture", "miri-key512") => {
+            use crate::fv::{Fv, F512};
+            let (sk, pk) = F512::keygen(crate::util::counter_seed(7));
+            let msg = b"miri fixture".to_vec();
+            let sig = F512::sign(&msg, &sk);
+            assert!(F512::verify(&msg, &sig, &pk));
+            println!("# Falcon-512 fixture for the Miri legs: sk, pk, message, signature (hex), from counter seed 7");
+            println!("{}\n{}\n{}\n{}", crate::util::hex(&F512::sk_to_bytes(&sk)), crate::util::hex(&F512::pk_to_bytes(&pk)), crate::util::hex(&msg), crate::util::hex(&F512::sig_to_bytes(&sig)));
+            rep.evaluations += 1;
+        }
         ("C01", "matrix") => c01::matrix(ctx, rep),
         ("C01", "native") => c01::native(ctx, rep),
         ("C01", "concurrent") => c01::concurrent(ctx, rep),
